@@ -2,6 +2,7 @@ package wire
 
 import (
 	"bytes"
+	"errors"
 	"fmt"
 	"io"
 	"math/rand"
@@ -415,9 +416,77 @@ type msgTrack struct {
 
 // C06: the fragmenting writer emits one well-formed message per flush and
 // loses no byte.
+// errExtRefuses is what the failing extension of c06ExtFails returns.
+var errExtRefuses = errors.New("sim: extension refuses the frame")
+
+// failingExt is a send extension that works failAt times and then refuses.
+type failingExt struct{ calls, failAt int }
+
+func (e *failingExt) SetBits(h ws.Header) (ws.Header, error) {
+	e.calls++
+	if e.calls > e.failAt {
+		return h, errExtRefuses
+	}
+	return h, nil
+}
+
+// c06ExtFails: the fault sits in the extension seam instead of the
+// destination. Every call must return; once a call has reported the
+// extension's error the writer accepts nothing more and sends nothing more
+// ("if an error occurs writing to a Writer, no more data will be accepted
+// and all subsequent writes will return the error"); what was sent before is
+// whole frames.
+func c06ExtFails(r *eng.Run) {
+	cfg := drawWCfg(r)
+	cfg.Ext, cfg.Ext2 = 0, 0
+	r.SetEntry("Writer/extension-fails")
+	ops := drawHistory(r, cfg, 10)
+	seed := r.T.U32(sim.LPaySeed)
+	p := NewPipe(r, nil)
+	wr := &WRun{Cfg: cfg, Ops: ops, Pipe: p}
+	wr.W = NewW(cfg, p)
+	applyOptions(wr.W, cfg)
+	ext := &failingExt{failAt: r.T.Int(sim.LFaultAt, 4)}
+	wr.W.SetExtensions(ext)
+	r.Note("C06 %s extension refuses from call %d on; history: %v", cfg, ext.failAt+1, ops)
+	fired, sentAtFail := -1, 0
+	ExecHistory(r, wr, seed, func(i int) {
+		ob := wr.Obs[i]
+		if fired >= 0 {
+			switch ob.Op.Kind {
+			case WOpWrite, WOpWriteEmpty, WOpThrough, WOpFlush, WOpFlushFrag:
+				if ob.Err == nil {
+					r.Failf("error_not_sticky", "the extension refused a frame during step %d (%s); later step %d %s returned nil", fired, ops[fired], i, ob.Op)
+				}
+			}
+			if len(p.Out) != sentAtFail {
+				r.Failf("bytes_after_failure", "the extension refused a frame during step %d (%s); step %d %s sent %d more bytes", fired, ops[fired], i, ob.Op, len(p.Out)-sentAtFail)
+			}
+			return
+		}
+		if errors.Is(ob.Err, errExtRefuses) {
+			fired, sentAtFail = i, len(p.Out)
+			r.Fault("extension_refuses_frame")
+		} else if ext.calls > ext.failAt && ob.Err == nil {
+			switch ob.Op.Kind {
+			case WOpWrite, WOpWriteEmpty, WOpThrough, WOpFlush, WOpFlushFrag:
+				r.Failf("extension_error_swallowed", "the extension refused a frame during step %d (%s) but the call returned nil", i, ob.Op)
+			}
+		}
+	})
+	if _, rest, err := ref.DecodeAll(p.Out); err != nil || rest != 0 {
+		r.Failf("partial_frame_at_call_boundary", "with a refusing extension the %d bytes sent are not whole frames (rest=%d err=%v)", len(p.Out), rest, err)
+	}
+	r.Res.Nontrivial = fired >= 0
+}
+
 func C06(r *eng.Run) {
 	if r.T.Chance(sim.LEntry, 1, 6) {
 		c06WriteMessage(r)
+		return
+	}
+	if r.T.Chance(sim.LEntry, 1, 10) {
+		c06ExtFails(r)
 		return
 	}
 	cfg := drawWCfg(r)
